@@ -324,3 +324,7 @@ def _obj_alternating(n):
 
 
 LINEAR["obj_alternating_materials"] = ("obj", _obj_alternating)
+
+
+LINEAR["stl_empty_solids"] = ("stl", lambda n: ("".join(f"solid s{i}\nendsolid s{i}\n" for i in range(n)) + "solid t\nfacet normal 0 0 1\nouter loop\nvertex 0 0 0\nvertex 1 0 0\nvertex 0 1 0\nendloop\nendfacet\nendsolid t\n").encode())
+LINEAR["off_comments"] = ("off", lambda n: ("OFF\n" + "".join(f"# comment number {i}\n" for i in range(n)) + "3 1 0\n0 0 0\n1 0 0\n0 1 0\n3 0 1 2\n").encode())
